@@ -623,6 +623,14 @@ namespace sim
 			return;
 		}
 
+		// whoever is done with this datagram has to ask for the next one, or
+		// the relay stops
+		auto const receive_next = [this]
+		{
+			m_udp_associate.async_receive_from(boost::asio::buffer(m_udp_buffer)
+				, m_udp_from, 0, std::bind(&socks_connection::on_read_udp, this, std::placeholders::_1, std::placeholders::_2));
+		};
+
 		// if the client didn't specify an IP and port it would send packets from,
 		// we assumed the same IP as the TCP connection and assume the port is the
 		// same as the first UDP packet from that host
@@ -669,6 +677,7 @@ namespace sim
 					m_udp_associate.send_to(boost::asio::buffer(buf, bytes_transferred)
 						, udp::endpoint(it->second, port), 0, err);
 					if (err) std::printf("send_to failed: %s\n", err.message().c_str());
+					receive_next();
 					return;
 				}
 
@@ -781,8 +790,7 @@ namespace sim
 			}
 		}
 
-		m_udp_associate.async_receive_from(boost::asio::buffer(m_udp_buffer)
-			, m_udp_from, 0, std::bind(&socks_connection::on_read_udp, this, std::placeholders::_1, std::placeholders::_2));
+		receive_next();
 	}
 
 	void socks_connection::start_accept(boost::system::error_code const& ec)
